@@ -277,8 +277,21 @@ func Probe(name string) string {
 		}
 		return fmt.Sprintf("%s\nlasso in %d of %d runs\n", Describe(w), lassos, k)
 	}
+	w0 := w.Clone()
 	tr := Run(w, 12)
-	return fmt.Sprintf("%s\n%s", Describe(w), tr.Dump())
+	if os.Getenv("C15_ORDER") != "" {
+		// the pop sequences of the pending jobs over the push orders, at the state before every cycle
+		wi := w0.Clone()
+		for c := range tr.Cycles {
+			fmt.Printf("  order c%d: %v\n", c, popSequences(Build(wi)))
+			wi.Apply(tr.Cycles[c].Calls)
+		}
+	}
+	out := fmt.Sprintf("%s\n%s", Describe(w), tr.Dump())
+	if tr.LassoFrom >= 0 {
+		out += fmt.Sprintf("  push-order dependence of JobsOrderByQueues in the loop: %q\n  lasso shape: %s\n", orderDependence(w0, tr), lassoShape(tr))
+	}
+	return out
 }
 
 
